@@ -1,7 +1,7 @@
 (* CodecWf.v — well-formedness of declarations and values, and the normal form of a value
    (transient fields reset to their declared defaults).  Definitions only. *)
 From Coq Require Import NArith ZArith List Bool.
-From Desert Require Import Outcome IO Types Calendar Codec.
+From Desert Require Import Outcome IO Types Calendar BigDec Codec.
 Import ListNotations.
 Open Scope N_scope.
 
@@ -13,8 +13,8 @@ Definition supported_prim (p : prim) : bool :=
   | PWeekday | PMonth | PFixedOffset | PTz | PDateTimeUtc | PNaiveDate | PNaiveTime | PNaiveDateTime
   | PDateTimeLocal | PDateTimeFixed | PDateTimeTz => true
   | PVarU32 | PVarI32 => true
-  (* BigDecimal is written as the decimal text the bigdecimal crate renders and parses: not modelled *)
-  | PBigDecimal => false
+  (* BigDecimal: the decimal text the bigdecimal crate renders and parses (BigDec.v) *)
+  | PBigDecimal => true
   end.
 
 Fixpoint wf_ty (E : env) (t : ty) : bool :=
@@ -92,6 +92,7 @@ Definition wf_prim_val (p : prim) (v : val) : bool :=
   | PBytes, VB _ => true
   | PUuid, VB bs => nlen bs =? 16
   | PBigInt, VZ _ => true
+  | PBigDecimal, VNode 0 [VZ i; VZ sc] => bd_normal i sc
   | PWeekday, VN n => (1 <=? n) && (n <=? 7)
   | PMonth, VN n => (1 <=? n) && (n <=? 12)
   | PFixedOffset, VZ z => valid_offset z
